@@ -102,7 +102,7 @@ def readback(v):
 
 def cases(ctx):
     r = ctx.rng('docs')
-    for _ in range(ctx.size(3000, 260000)):
+    for _ in range(ctx.size(3000, 450000)):
         doc = rtdoc.gen_doc(r)
         ids = rtdoc.Ids()
         ids.n = 1000
